@@ -236,3 +236,11 @@ m('c20_first_coordinate_only', 'C20', 'individual.py', "            diff = d if 
 m('c20_sum_instead_of_max_signed', 'C20', 'individual.py', "            d = abs(self.vector[i] - other.vector[i])", "            d = self.vector[i] - other.vector[i]")
 # (hashing fewer coordinates only adds collisions: identical vectors still hash identically - equivalent for C20)
 m('c20_hash_includes_id', 'C20', 'individual.py', "        return hash(tuple(self.vector))", "        return hash((self.id,) + tuple(self.vector))")
+
+# ---------------------------------------------------------------- C07, statement-level races (need a pre-emption between two lines)
+m('c07_scratch_between_lines', 'C07', 'job.py',
+  "                costs = self.problem.surrogate.evaluate(individual)\n                individual.costs = costs\n",
+  "                self._scratch = self.problem.surrogate.evaluate(individual)\n                individual.costs = self._scratch\n")
+m('c07_shared_dict_buffer', 'C07', 'datastore.py',
+  "                c.execute(self.sql_individuals_upsert, [individual.id, json.dumps(individual.to_dict())])\n                conn.commit()\n            except sqlite3.OperationalError as e:",
+  "                self._row = [individual.id, json.dumps(individual.to_dict())]\n                c.execute(self.sql_individuals_upsert, self._row)\n                conn.commit()\n            except sqlite3.OperationalError as e:")
